@@ -237,8 +237,9 @@ def finish(prop, tier, seed, results, t0, technique, explanation, extra_assumpti
         wall_s=round(wall, 3),
         violations=len(new_violations),
     )
-    os.makedirs(os.path.join(ROOT, "evidence"), exist_ok=True)
-    with open(os.path.join(ROOT, "evidence", "%s.json" % prop), "w") as f:
+    evdir = os.environ.get("VERIF_EVIDENCE_DIR") or os.path.join(ROOT, "evidence")  # scratch runs (mutant trials) write elsewhere
+    os.makedirs(evdir, exist_ok=True)
+    with open(os.path.join(evdir, "%s.json" % prop), "w") as f:
         json.dump(ev, f, indent=1)
 
     print("%s %s: %d obligations, %d unsat, %d sat, %d inconclusive; %d vacuity witnesses; %d groups; paths=%d queries=%d solver=%.1fs wall=%.1fs" % (prop, tier, len(proves), n_unsat, ev["coverage"]["sat"], len(n_unknown), len(reach), len(results), stats["paths"], stats["queries"], stats["solver_time"], wall))
